@@ -140,6 +140,7 @@ impl Sub for Product {
         let (na, nb) = (l2(&af), l2(&bf));
         let fa = cfft(&real(&af));
         let fb = cfft(&real(&bf));
+        ensure!(cfft(&real(&af)) == fa, "fft:not-repeatable", "n = {}: a second fft(a) right after the first gives a different result", n);
         // round trip
         let back = cifft(&fa);
         let d = max_dist(&back, &real(&af));
